@@ -2620,7 +2620,19 @@ func (p *printer) printExpr(expr js_ast.Expr, level js_ast.L, flags printExprFla
 			}
 			flags &= ^(isNewTarget | hasNonOptionalChainParent)
 		}
+
+		// A statement that starts with "let [" is a lexical declaration, so the
+		// identifier "let" must be parenthesized: "(let)[0] = 1"
+		wrapLet := false
+		if id, ok := e.Target.Data.(*js_ast.EIdentifier); ok && e.OptionalChain == js_ast.OptionalChainNone &&
+			len(p.js) == p.stmtStart && p.renamer.NameForSymbol(id.Ref) == "let" {
+			wrapLet = true
+			p.print("(")
+		}
 		p.printExpr(e.Target, js_ast.LPostfix, (flags&(isNewTarget|hasNonOptionalChainParent))|isPropertyAccessTarget)
+		if wrapLet {
+			p.print(")")
+		}
 		if e.OptionalChain == js_ast.OptionalChainStart {
 			p.print("?.")
 		}
